@@ -18,6 +18,9 @@ structure Verdict where
   spec : List (String × Bool × String) := []
   /-- branch labels hit by the model on this case -/
   labels : List String := []
+  /-- if the model's and the implementation's outputs differ: the properties whose correspondence
+  that difference breaks (`none` = every property this component serves) -/
+  blame : Option (List String) := none
 
 end Oc
 
